@@ -252,7 +252,7 @@ class C08(Check):
             "local_namespace_limit": "0,1,S-1,S,S+1,2S, T-1,T for the first 3 totals, 10**9",
             "context_depth_limit": "every integer 0..(static bound on use + margin), 10**6",
             "block_nesting_limit": "every integer 0..(block depth of the source + 3), 10**6",
-            "nest": "depth 1-2: 7 kinds x lengths 0..3; depth 3: " + ("7 kinds x lengths {2,3}x{2,3}x{0,2,3}" if tier == "quick" else
+            "nest": "depth 1-2: 7 kinds x lengths 0..3; depth 3: " + ("5 kinds (for, tablerow, render-for, include in for, macro call in for) x lengths {2,3}x{2,3}x{0,2,3}" if tier == "quick" else
                                                                        "7 kinds x lengths 0..3"),
             "recursion_depth_k": "0..6" if tier == "quick" else "0..9",
             "block_chain_depth": "<= 3 over 7 kinds, homogeneous up to " + ("8" if tier == "quick" else "14"),
